@@ -45,6 +45,14 @@ RAW = [
         "aux.py": RAW_HEADER + "K = 'aux'\n\n\ndef leaf(a):\n    return [a, K]\n\n\ndef mid(a):\n    return leaf(a) + [K]\n",
         "mod.py": RAW_HEADER + "from . import aux\nK = 'mod'\n\n\ndef leaf(a):\n    return [K, a]\n\n\ndef mid(a):\n    return leaf(a) + [K, K]\n\n\n"
                   "@memento_function(cluster=\"vp\")\ndef m1(x):\n    vrec.REC.enter('m1', x)\n    return [mid(x), aux.mid(x), leaf(x), aux.leaf(x), K, aux.K]\n"}),
+    dict(name="two-packages", ms=["m1", "m2"], files={
+        "vpb/__init__.py": "",
+        "vpb/lib.py": RAW_HEADER + "RATE = 3\n\n\ndef round_half(a):\n    return a // 2 + RATE\n\n\ndef scale(a):\n    return round_half(a) * RATE\n\n\n"
+                      "@memento_function(cluster=\"vp\")\ndef rate(x):\n    vrec.REC.enter('rate', x)\n    return scale(x) + round_half(x)\n",
+        "aux.py": RAW_HEADER,
+        "mod.py": RAW_HEADER + "from vpb import lib\nfrom vpb.lib import rate, round_half, scale\n\n\ndef local_helper(a):\n    return [round_half(a), lib.scale(a)]\n\n\n"
+                  "@memento_function(cluster=\"vp\")\ndef m1(x):\n    vrec.REC.enter('m1', x)\n    return [round_half(x), rate(x), scale(x), lib.RATE]\n\n\n"
+                  "@memento_function(cluster=\"vp\")\ndef m2(x):\n    vrec.REC.enter('m2', x)\n    return [local_helper(x), lib.rate(x), m1(x), scale(x)]\n"}),
     dict(name="lambdas-and-variables-sharing-names", ms=["m1", "m2"], files={
         "aux.py": RAW_HEADER + "T = (1, 2)\nf = lambda a: [a, T]\ng = lambda a: [T, a]\n",
         "mod.py": RAW_HEADER + "from . import aux\nT = (2, 1)\nf = lambda a: [a, T, 0]\ng = lambda a: [T, a, 0]\n\n\n"
@@ -58,7 +66,9 @@ def write_raw(raw, sub, pkg):
     os.makedirs(d, exist_ok=True)
     open(os.path.join(d, "__init__.py"), "w").write("")
     for fn, src in raw["files"].items():
-        open(os.path.join(d, fn), "w").write(src)
+        path = os.path.join(sub, fn) if "/" in fn else os.path.join(d, fn)       # "otherpkg/x.py": a second package
+        os.makedirs(os.path.dirname(path), exist_ok=True)
+        open(path, "w").write(src)
     open(os.path.join(d, "other.py"), "w").write(
         'from twosigma.memento import memento_function\n\n\n@memento_function(cluster="vp")\ndef unrelated(x):\n    return x\n')
 
